@@ -133,10 +133,34 @@ _NO_OBJECTS = bytes(b for b in range(256)
                     if b not in b'c\x93R\x81\x92iob\x96\x97\x98')
 
 
+def odd_env_bytes(k):
+    '''A valid pickle of the environment class itself whose state is not
+    what this version of the class expects (the file of another version of
+    valjean in a long-lived output tree): right class, wrong contents.'''
+    env_mod = mods()['env']
+    obj = env_mod.Env()
+    k %= 5
+    if k == 0:
+        del obj.__dict__['dictionary']
+    elif k == 1:
+        obj.__dict__['dictionary'] = None
+    elif k == 2:
+        obj.__dict__['dictionary'] = [('task', {'status': 'DONE'})]
+    elif k == 3:
+        del obj.__dict__['dictionary']
+        obj.__dict__['data'] = {'task': {}}
+    else:
+        obj.__dict__['dictionary'] = 'DONE'
+    return pickle.dumps(obj)
+
+
 def junk_bytes(seed):
     rng = random.Random(seed)
-    if rng.random() < 0.5:
+    pick = rng.random()
+    if pick < 0.4:
         return JUNK[rng.randrange(len(JUNK))]
+    if pick < 0.55:
+        return odd_env_bytes(rng.randrange(5))
     return bytes(rng.choice(_NO_OBJECTS)
                  for _ in range(rng.randrange(1, 80)))
 
